@@ -1,5 +1,5 @@
 From SplVerif Require Import Lib.Base Tlv.Model Tlv.Spec Tlv.Ops Tlv.Corollaries Props.C12.
-From SplVerif Require Import ListView.Model Resolution.Account MetaList.Model MetaList.Proofs.
+From SplVerif Require Import ListView.Model Resolution.Account MetaList.Model MetaList.Proofs MetaList.Stored.
 Local Open Scope N_scope.
 (* PINS *)
 Check C12_size_formula : forall k, 35 * k + 4 < USIZE_LIMIT -> ml_size_of k = Ok (12 + (4 + 35 * k)).
@@ -10,3 +10,4 @@ Check C12_update : forall n es t a v b ms, fits n es -> wf_tag t -> Forall wf_ex
 Check C12_update_missing : forall n es t ms, fits n es -> wf_tag t -> len ms < 100000000 -> split_entry es t 0 = None -> exists e, ml_update (render n es) t ms = (render n es, Err e).
 Check C12_other_lists_untouched : forall a t (v w : list byte) b t' r', (t' <> t \/ r' <> count t a) -> lookup_value (a ++ (t, w) :: b) t' r' = lookup_value (a ++ (t, v) :: b) t' r'.
 Check C12_malformed : forall data t ms, (forall u, check_data data <> Ok u) -> (exists e, ml_init data t ms = (data, Err e)) /\ (exists e, ml_update data t ms = (data, Err e)) /\ (exists e, ml_reload data t = Err e).
+Check C12_reload_any_bytes : forall data t, match ml_reload data t with | Ok cfgs => Forall wf_extra cfgs | Err _ => True | Panic => False end.
